@@ -42,7 +42,7 @@ def S(scen, cores, steps, **kw):
 QUERIES = [
     {"name": "pool", "fn": pool,
      "shards": {"quick": _sp([S("skip", 1, 3), S("indep-tl", 1, 3), S("indep-tl", 2, 3), S("fork", 1, 3), S("one-tl", 1, 4, ignore_term=True), S("fork", 1, 2, faults=True), S("indep-tl", 1, 2, faults=True), S("twins", 1, 3), S("twins", 2, 3)]),
-                "thorough": _sp([S(s, c, 3) for s in ("skip", "indep-tl", "fork", "chain", "late", "twins") for c in (1, 2)] + [S("chain", 1, 4), S("fork", 2, 4)] + [S("one-tl", 1, 4, ignore_term=True), S("skip", 1, 2, faults=True), S("fork", 1, 3, faults=True), S("indep-tl", 1, 3, races=True)])},
+                "thorough": _sp([S(s, c, 3) for s in ("skip", "indep-tl", "fork", "chain", "late", "twins") for c in (1, 2)] + [S("chain", 1, 4), S("fork", 2, 4)] + [S("one-tl", 1, 4, ignore_term=True), S("fork", 1, 3, faults=True), S("indep-tl", 1, 3, faults=True), S("indep-tl", 1, 3, races=True)])},
      "timeout": {"quick": 900, "thorough": 3000},
      "bound": "scenarios: failing task with a skipped dependent followed by independent tasks, the same with two tasks sharing one name, time-limited independent tasks, fork; 1 or 2 cores; event script of 3-4 events + drain; "
               "one scenario with a child that ignores SIGTERM; live children <= cores at every quiescent point, no core released that was not taken, no free core while a ready task waits, balanced at the end"},
